@@ -72,6 +72,7 @@ func init() {
 			ruleBrokenStreamEndsRPC(c, "C14.12")
 			ruleChannelClose(c, "C14.13")
 			ruleShortLocks(c, "C14.14")
+			ruleServerCancel(c, "C14.15a", "C14.15") // a cancelled RPC whose handler is parked on its window (holding the write mutex) must be released, or handler, watcher and receive loop stay behind
 		},
 		Explain:    "Static necessary conditions of 'nothing left behind': every go statement falls in a verified termination class (straight-line sender, context watcher whose context is cancelled on every finishing path, receive loop, dispatch with deferred finish); every table insert has its delete on every finishing path (both ends) and on first-send failure; stream contexts are cancelled on every finishing path; cancel empties the queue; no run-time writes to package-level state; registry add/deferred-remove pairing.",
 		Assume:     []string{"handlers return when their context is cancelled and their blocking operations are released (C04.4)"},
